@@ -167,11 +167,21 @@ func GenComment(t *rapid.T, o Opts) Tok {
 	if o.NoNestedComment {
 		v = strings.ReplaceAll(v, "/*", "/ *")
 	} else if strings.Contains(v, "/*") {
-		// DuckDB nests: balance every opener so the comment is well formed
+		// DuckDB nests: its lexer reads an opener as "/*" plus any following
+		// operator characters, so put a space after each opener (then the count
+		// is exact) and balance every one of them.
+		v = strings.ReplaceAll(v, "/*", "/* ")
 		v += strings.Repeat(" */", strings.Count(v, "/*"))
 	}
-	// "/" directly before "*/" or a trailing "/" could fuse: keep a space at both ends
-	return Tok{Kind: BComment, Text: "/* " + v + " */"}
+	// Padding is optional so that "/*/ … */", "/**/" and "/***/" are reachable
+	// (the opener's "*" must not double as the terminator's). A body ending in
+	// "/" needs the pad: "/" + "*/" would read as a nested opener.
+	left := rapid.SampledFrom([]string{" ", ""}).Draw(t, "cpadl")
+	right := rapid.SampledFrom([]string{" ", ""}).Draw(t, "cpadr")
+	if strings.HasSuffix(v, "/") {
+		right = " "
+	}
+	return Tok{Kind: BComment, Text: "/*" + left + v + right + "*/"}
 }
 
 var words = []string{"SELECT", "select", "FROM", "from", "WHERE", "AS", "x", "cpu", "db", "e", "E", "t1", "_a", "Mydb", "and", "null", "usage_idle", "time"}
